@@ -58,10 +58,26 @@ impl EditConnectionCostPlugin for InhibitConnectionPlugin {
         &mut self,
         settings: &Value,
         _config: &Config,
-        _grammar: &Grammar,
+        grammar: &Grammar,
     ) -> SudachiResult<()> {
         let settings: PluginSettings = serde_json::from_value(settings.clone())?;
         let inhibit_pairs = settings.inhibitPair;
+        let conn = grammar.conn_matrix();
+        for (left, right) in inhibit_pairs.iter() {
+            if *left < 0
+                || *left as usize >= conn.num_left()
+                || *right < 0
+                || *right as usize >= conn.num_right()
+            {
+                return Err(SudachiError::InvalidDataFormat(
+                    0,
+                    format!(
+                        "inhibitPair ({}, {}) is outside of the connection matrix",
+                        left, right
+                    ),
+                ));
+            }
+        }
         self.inhibit_pairs = inhibit_pairs;
         Ok(())
     }
